@@ -10,9 +10,9 @@
 EXTENDS Naturals, FiniteSets, TLC
 Schemes   == {"gemini", "GEMINI", "http", "titan", "none"}
 UserInfos == {"none", "user", "userpw", "pwonly", "empty"}
-Hosts     == {"reg", "REG", "ipv4", "v6", "v6zone", "missing", "v6bare"}
+Hosts     == {"reg", "REG", "ipv4", "v6", "v6zone", "missing", "v6bare", "v6junk"}     \* v6junk: characters around the brackets ("junk[::1]junk")
 Ports     == {"absent", "emptycolon", "1965", "0", "65535", "65536", "abc", "7070"}
-PathKs    == {"empty", "root", "plain", "pct", "params", "dslash", "dots"}
+PathKs    == {"empty", "root", "plain", "pct", "params", "dslash", "dots", "ctl"}      \* ctl: a raw TAB, LF, CR, space, NUL or DEL inside
 Queries   == {"absent", "emptyq", "plain", "qmark"}
 Frags     == {"absent", "frag", "emptyfrag"}
 Lens      == {"short", "max", "over"}        \* line + CRLF: well below / exactly 1024 / 1025 bytes
@@ -23,9 +23,9 @@ vars == <<u, uploads, out>>
 PortNumber(p) == CASE p = "absent" -> 1965 [] p = "emptycolon" -> 1965 [] p = "1965" -> 1965 [] p = "0" -> 0
                    [] p = "65535" -> 65535 [] p = "7070" -> 7070 [] OTHER -> 99999
 PortOk(p) == p \notin {"65536", "abc"}
-HostOk(h) == h \notin {"missing", "v6bare"}
+HostOk(h) == h \notin {"missing", "v6bare", "v6junk"}
 \* a gemini:// URL that satisfies the protocol grammar
-Wellformed(x) == /\ x.user \in {"none", "empty"} /\ HostOk(x.host) /\ PortOk(x.port)
+Wellformed(x) == /\ x.user \in {"none", "empty"} /\ HostOk(x.host) /\ PortOk(x.port) /\ x.path # "ctl"
                  /\ x.frag \in {"absent", "emptyfrag"} /\ x.len # "over"
 \* grey zones left undecided: upper-case scheme, empty user-info ("@"), empty fragment ("#")
 Grey(x) == Wellformed(x) /\ (x.scheme = "GEMINI" \/ x.user = "empty" \/ x.frag = "emptyfrag")
@@ -60,5 +60,5 @@ MeaningPreserved == (u.scheme \in {"gemini", "GEMINI"} /\ Wellformed(u)) => Expe
 AtLimitEmptyPath(x) == x.path = "empty" /\ x.len = "max" /\ Norm(x).len = "over"
 NormalizedWellformed == (u.scheme \in {"gemini", "GEMINI"} /\ Wellformed(u) /\ ~AtLimitEmptyPath(u)) => Wellformed(Norm(u))
 \* C08: user-info, fragment, foreign scheme, missing host, bad port and over-long lines are never accepted
-NeverAcceptsBad == (out = "accept") => (u.scheme = "gemini" /\ u.user = "none" /\ u.frag = "absent" /\ HostOk(u.host) /\ PortOk(u.port) /\ u.len # "over")
+NeverAcceptsBad == (out = "accept") => (u.scheme = "gemini" /\ u.user = "none" /\ u.frag = "absent" /\ HostOk(u.host) /\ PortOk(u.port) /\ u.len # "over" /\ u.path # "ctl")
 =============================================================================
